@@ -67,3 +67,41 @@ Proof.
   exists s0. split; [reflexivity|].
   vm_compute in E. injection E as <-. vm_compute. repeat split.
 Qed.
+
+(* ------------------------------------------------------------------ the widened class (Pair/C01_Pred2.v)
+   recognises the delayed-ACK trace and the original KF1 trace (by the pop alone), and not the lossy
+   3000-byte transfer, on which the guarded predicate holds without excuse. *)
+From Utp Require Import Conn.VObs Pair.C01_Pred2.
+
+Lemma c01_kf1_class2_witnesses :
+  (exists s0 : pair (CC := unit),
+     pair_new (fixed_cc 100000) (fun _ _ => tt) kf1_cfg = Some s0 /\
+     let tr := ptrace (fixed_cc 100000) s0 kf1_delayed_ack_ops in
+     let evs := pevents (fixed_cc 100000) s0 kf1_delayed_ack_ops in
+     let fps := pair_fps (fixed_cc 100000) s0 tr in
+     c01_kf1_class evs = false /\ c01_kf1_popped_dir SA fps evs = true /\ c01_kf1_class2 fps evs = true /\
+     pops_of SA fps = [(102, 991)] /\
+     c01_pair_guarded2 fps evs (zip_obs kf1_delayed_ack_ops tr) = true) /\
+  (exists s0 : pair (CC := unit),
+     pair_new (fixed_cc 100000) (fun _ _ => tt) kf1_cfg = Some s0 /\
+     let tr := ptrace (fixed_cc 100000) s0 kf1_pair_ops in
+     let evs := pevents (fixed_cc 100000) s0 kf1_pair_ops in
+     let fps := pair_fps (fixed_cc 100000) s0 tr in
+     c01_kf1_class evs = true /\ c01_kf1_popped_dir SA fps evs = true /\ c01_kf1_class2 fps evs = true /\
+     c01_pair_guarded2 fps evs (zip_obs kf1_pair_ops tr) = true) /\
+  (exists s0 : pair (CC := unit),
+     pair_new (fixed_cc 100000) (fun _ _ => tt) d17_cfg = Some s0 /\
+     let tr := ptrace (fixed_cc 100000) s0 d17_pair_ops in
+     let evs := pevents (fixed_cc 100000) s0 d17_pair_ops in
+     let fps := pair_fps (fixed_cc 100000) s0 tr in
+     c01_kf1_class2 fps evs = false /\ c01_pair_ok (zip_obs d17_pair_ops tr) = true /\
+     c01_pair_guarded2 fps evs (zip_obs d17_pair_ops tr) = true).
+Proof.
+  split; [|split].
+  - destruct (pair_new (fixed_cc 100000) (fun _ _ => tt) kf1_cfg) as [s0|] eqn:E; [|vm_compute in E; discriminate].
+    exists s0. split; [reflexivity|]. vm_compute in E. injection E as <-. vm_compute. repeat split.
+  - destruct (pair_new (fixed_cc 100000) (fun _ _ => tt) kf1_cfg) as [s0|] eqn:E; [|vm_compute in E; discriminate].
+    exists s0. split; [reflexivity|]. vm_compute in E. injection E as <-. vm_compute. repeat split.
+  - destruct (pair_new (fixed_cc 100000) (fun _ _ => tt) d17_cfg) as [s0|] eqn:E; [|vm_compute in E; discriminate].
+    exists s0. split; [reflexivity|]. vm_compute in E. injection E as <-. vm_compute. repeat split.
+Qed.
